@@ -33,9 +33,17 @@ def phi_inf(x):
 
 # ----------------------------------------------------------------------------- implementation adaptors
 
+_ID_SALT = [0]
+
+
 def new_ind(vector, costs=(), marker=True, front=None, crowd=None):
     from artap.individual import Individual
     ind = Individual([float(v) for v in vector])
+    # ids are not ascending along a population list (populations are merged, shuffled and truncated between two calls):
+    # every other object gets an id from a descending range
+    _ID_SALT[0] += 1
+    if _ID_SALT[0] % 2 == 0:
+        ind.id = 10 ** 9 - _ID_SALT[0]
     ind.costs = list(costs)
     ind.costs_signed = list(costs) + [marker]
     ind.features['front_number'] = front
